@@ -29,7 +29,8 @@ pub open spec fn cdh_body_at(d: Seq<u8>, p: int) -> bool { inb(d, p + 4, 42) && 
 pub open spec fn xstate0(h: Cdh) -> XState {
     XState { usz: h.usize32 as u64, csz: h.csize32 as u64, hs: h.off32 as u64, large: false, aes: None, method: method_of_code(h.method) }
 }
-pub open spec fn parsed_matches(f: ZipFileData, h: Cdh, chs: u64, aoff: u64) -> bool {
+// everything but the stored extra field (new_append keeps the extra field without its ZIP64 records, see dir_parsed_append)
+pub open spec fn parsed_matches_but_extra(f: ZipFileData, h: Cdh, chs: u64, aoff: u64) -> bool {
     &&& f.system == system_of_code((h.made_by >> 8) as u8)
     &&& f.version_made_by == h.made_by as u8
     &&& f.encrypted == (h.flags & 1 == 1)
@@ -40,11 +41,13 @@ pub open spec fn parsed_matches(f: ZipFileData, h: Cdh, chs: u64, aoff: u64) -> 
     &&& f.file_name_raw@ == h.name
     &&& f.file_name@ == decode_text(h.flags, h.name)
     &&& f.file_comment@ == decode_text(h.flags, h.comment)
-    &&& f.extra_field@ == h.extra_rest
     &&& f.external_attributes == h.eattr
     &&& f.central_header_start == chs
     &&& (xwf(h.extra_rest, 0, xstate0(h)) ==> (xwalk(h.extra_rest, 0, xstate0(h)) matches Some(st)
             && f.uncompressed_size == st.usz && f.compressed_size == st.csz && f.header_start == st.hs + aoff
             && f.large_file == st.large && f.aes_mode == st.aes && f.compression_method == st.method
             && !(st.method is Aes && st.aes is None)))
+}
+pub open spec fn parsed_matches(f: ZipFileData, h: Cdh, chs: u64, aoff: u64) -> bool {
+    parsed_matches_but_extra(f, h, chs, aoff) && f.extra_field@ == h.extra_rest
 }
